@@ -262,6 +262,10 @@ class World(BaseWorld):
             if self.cfg.get('fault') and rng.random() < 0.5:
                 fault = rng.randint(1, 6)
             return {'op': 'gen_ag', 'lg': lg, 'types': ts, 'links': links, 'fault_at': fault}
+        if kind == 'new_lg':
+            # from the dict in memory, or from a .mar archive at a path that every language
+            # of this process is written to in turn (same path, other content)
+            return {'op': kind, 'lg': lg, 'via': rng.choice(['spec', 'spec', 'mar'])}
         return {'op': kind, 'lg': lg}
 
     def _factory(self, i):
@@ -368,6 +372,19 @@ class World(BaseWorld):
                 raise Violation('C03.stable', f'regenerate_graph raised {o.exc!r} on a '
                                               f'specification that loaded before')
             self.factories.pop(op['lg'], None)
+        elif kind == 'new_lg' and op.get('via') == 'mar':
+            import zipfile
+            p = self.path('lang.mar')
+            with zipfile.ZipFile(p, 'w') as z:
+                z.writestr('langspec.json', self.S0)
+            o = call(self.LanguageGraph.from_mar_archive, p)
+            if o.raised:
+                raise Violation('C03.stable', f'from_mar_archive raised {o.exc!r} on a '
+                                              f'specification that loaded before')
+            self.lgs.append(o.value)
+            self.count('probe:language_loaded_from_archive_path_used_before'
+                       if getattr(self, '_mar_written', False) else 'probe:language_loaded_from_archive')
+            self._mar_written = True
         elif kind == 'new_lg':
             o = call(self.LanguageGraph, self.spec)
             if o.raised:
